@@ -255,7 +255,7 @@ def relational_mul_pow(ctx, report):
         npaths += paths
         # ---- pow_mod
         f = mod.funcs["pm"]
-        pre = rng("p0") + rng("p1") + rng("p2") + [K(2) - n]
+        pre = rng("p0") + rng("p1") + rng("p2") + [K(1) - n]  # every modulus n >= 1
         r = loops.check_loop(f, mod, pre, [("< n", lambda v: v - n + K(1))], summaries={MUL_MOD: summary(None, {})},
                              result_goal=lambda C, res: entails_le0(C, res - n + K(1)) and entails_le0(C, -res))
         fails = [(what, "at %s (%s)" % (node.pretty()[:120], _loc(mod, node))) for what, node in r["failures"]]
